@@ -1030,6 +1030,24 @@ class ConnProxy:
         finally:
             self._cb("after_commit")
 
+    def rollback(self):
+        self._cb("before_commit")
+        try:
+            self._c.rollback()
+        finally:
+            self._cb("after_commit")
+
+    # `with conn:` = commit on success, rollback on an exception, never close
+    def __enter__(self):
+        return self
+
+    def __exit__(self, et, ev, tb):
+        if et is None:
+            self.commit()
+        else:
+            self.rollback()
+        return False
+
     # connection-level shortcuts create a cursor of their own: same boundaries as through cursor()
     def execute(self, sql, params=()):
         return self.cursor().execute(sql, params)
